@@ -46,8 +46,10 @@ const (
 	KValuer     = "valuer"
 	KPValuer    = "pvaluer"
 	KNilPValuer = "nilpvaluer"
-	KGormValuer = "gval"    // gorm.Valuer rendering "(? || ?)" with S and I
-	KReenter    = "reenter" // chains.Reenter: a gorm.Valuer that runs ReenterHook while the statement is built
+	KGormValuer = "gval"     // gorm.Valuer rendering "(? || ?)" with S and I
+	KVSlice     = "vslice"   // chains.StrList{S, "tail"}: a slice type implementing driver.Valuer
+	KNullTime   = "nulltime" // sql.NullTime (valid)
+	KReenter    = "reenter"  // chains.Reenter: a gorm.Valuer that runs ReenterHook while the statement is built
 	// slice kinds
 	KStrs   = "strs"
 	KInts   = "ints"
@@ -145,6 +147,10 @@ func (v Val) Go() interface{} {
 		return Concat{A: v.S, B: v.I}
 	case KReenter:
 		return Reenter{V: v.I}
+	case KVSlice:
+		return StrList{v.S, "tail"}
+	case KNullTime:
+		return sql.NullTime{Time: v.time(), Valid: true}
 	case KStrs:
 		out := make([]string, len(v.L))
 		for i, e := range v.L {
@@ -214,8 +220,10 @@ func (v Val) Leaves() []interface{} {
 		return []interface{}{v.F}
 	case KBool:
 		return []interface{}{v.B}
-	case KTime:
+	case KTime, KNullTime:
 		return []interface{}{v.time()}
+	case KVSlice:
+		return []interface{}{v.S + "|tail"}
 	case KNil, KNilPStr, KNullStr0, KNilPValuer:
 		return []interface{}{nil}
 	case KBytes, KHash, KRaw:
@@ -242,8 +250,10 @@ func (v Val) Tokens() []string {
 		return []string{strconv.FormatInt(v.I, 10)}
 	case KF64:
 		return []string{strconv.FormatInt(int64(v.F), 10)}
-	case KTime:
+	case KTime, KNullTime:
 		return []string{"2471-"}
+	case KVSlice:
+		return []string{tokenOf(v.S)}
 	case KGormValuer:
 		return []string{tokenOf(v.S), strconv.FormatInt(v.I, 10)}
 	}
@@ -258,7 +268,7 @@ func (v Val) Tokens() []string {
 // change the statement if it were spliced into the text.
 func (v Val) Hostile() bool {
 	switch v.K {
-	case KStr, KPStr, KNullStr, KValuer, KPValuer, KBytes, KHash, KRaw, KGormValuer:
+	case KStr, KPStr, KNullStr, KValuer, KPValuer, KBytes, KHash, KRaw, KGormValuer, KVSlice:
 		return strings.ContainsAny(v.S, "'\"`\\?@)($;-\n%")
 	}
 	for _, e := range v.L {
@@ -272,9 +282,9 @@ func (v Val) Hostile() bool {
 // String renders the value canonically.
 func (v Val) String() string {
 	switch v.K {
-	case KStr, KPStr, KNullStr, KValuer, KPValuer, KBytes, KHash, KRaw:
+	case KStr, KPStr, KNullStr, KValuer, KPValuer, KBytes, KHash, KRaw, KVSlice:
 		return v.K + ":" + strconv.Quote(v.S)
-	case KInt, KI64, KUint, KPI64, KNullI64, KTime, KReenter:
+	case KInt, KI64, KUint, KPI64, KNullI64, KTime, KNullTime, KReenter:
 		return v.K + ":" + strconv.FormatInt(v.I, 10)
 	case KF64:
 		return v.K + ":" + strconv.FormatFloat(v.F, 'g', -1, 64)
